@@ -47,7 +47,14 @@ MANIFEST = {
             "C15_pathmodel_printed_is_variant: the printed path is the variant that spells the stored values. Necessity of "
             "hypotheses: C15_pathmodel_both_quotes_refuted (quotes_ok; known finding path-both-quotes at path level), "
             "C15_pathmodel_top_position_refuted (top_first: /m1:tk[2] on the empty tree is LY_EINVAL; libyang checks the "
-            "position only of the first node it creates). Example C15_pathmodel_example: a non-trivial two-module tree with "
+            "position only of the first node it creates). After lyd_change_term(): C15_pathmodel_change_term_paths - "
+            "change_term t p w = Some t' puts canon type w into the term node at p (identity follows the current values; the "
+            "model has no separate hash); IF the changed tree satisfies dwf S t' and quotes_ok t' again (decidable; in "
+            "particular the new key tuple / leaf-list value is not a sibling's - this preservation is a hypothesis, not proved "
+            "from a freshness condition) THEN every node of t' is found by its NEW printed path, exactly it, and lyd_new_path() "
+            "reports LY_EEXIST; the move of a system-ordered instance to its sorted place is not modelled. Example "
+            "C15_pathmodel_change_term_example: regression for the class of seeded change C15-8 (stale hash after a change) "
+            "on the example tree, incl. an int8 key given as ' +09 '. Example C15_pathmodel_example: a non-trivial two-module tree with "
             "typed keys meets the hypotheses; the same tree, as libyang parses it, is a corpus case of the T2 component. "
             "Tie (T2 pathmodel, impl/t_pathmodel.c): extracted model vs libyang on generated two-module schemas (augments, "
             "equal local names, key-name families, 1-3 keys of type string / int8..uint64 / boolean / enumeration, key-less "
@@ -58,10 +65,14 @@ MANIFEST = {
             "LY_EINVAL, LY_EVALID) for the printed path of every node and for mutated paths (dropped / duplicated / reordered "
             "key predicates, wrong / missing / redundant prefixes also on key names, positions 0 / out of range / 2^32, "
             "predicates on the wrong node kind, numbers for literals, other lexical forms of typed values - accepted and "
-            "rejected ones -, white space, trailing garbage, foreign XPath tokens). Two expectations in the same component are "
-            "ORACLE level only (not modelled, not proved): Y - lyd_find_xpath() of every printed path of data / notification "
-            "trees selects exactly the node; G - after lyd_change_term() of a string key / configuration leaf-list value the "
-            "newly printed path finds the node (path and XPath search) and re-creation reports LY_EEXIST. "
+            "rejected ones -, white space, trailing garbage, foreign XPath tokens). Query G ties "
+            "C15_pathmodel_change_term_paths: for key / configuration leaf-list nodes (string, or an integer type in any "
+            "lexical form; new value unused in the tree) the model runs change_term, evaluates dwf / quotes_ok of the changed "
+            "tree and the conclusions for the changed node, the driver runs lyd_change_term() on libyang's tree and checks by "
+            "pointer identity that the newly printed path finds the node and re-creation reports LY_EEXIST; both must answer ok "
+            "(the sibling order after the change is NOT compared). ORACLE level only (not modelled, not proved): Y - "
+            "lyd_find_xpath() of every printed path of data / notification trees selects exactly the node; inside G, the "
+            "lyd_find_xpath() check of the new path. "
             "(2) Properties_C15_ytext.v, model PathQuote.v of predicate quoting. C15_path_literal_roundtrip: for every key name "
             "that is an identifier and every value without both quote characters, the predicate lyd_path() prints, whatever "
             "follows it, is read back as exactly (name, value) by the path side (token minus first and last byte) and by the "
@@ -86,7 +97,8 @@ MANIFEST = {
             "ly_path_check_predicate (BEGIN_EITHER, PREFIX_FIRST, PRED_SIMPLE, duplicate-key test as coded), _ly_path_compile / "
             "ly_path_compile_snode / ly_path_compile_predicate, ly_path_eval_partial with lyd_find_sibling_first / "
             "lyd_compare_single list identity, lyd_new_path_ (options 0) with lyd_new_path_check_find_lypath and "
-            "lyd_create_list; values through PathModel.canon (string: valid UTF-8; int8..uint64: coq/IntLex.v - white space, "
+            "lyd_create_list; lyd_change_term as PathModel.change_term (value replaced by its canonical form, no re-sorting); "
+            "values through PathModel.canon (string: valid UTF-8; int8..uint64: coq/IntLex.v - white space, "
             "sign, leading zeros, bounds; boolean; enumeration): lyd_path prints the canonical value, predicates and created "
             "values are stored through the type, evaluation compares canonical forms. Hypotheses of the theorems: swf (names "
             "are identifiers; keyed lists have >= 1 key, keys lead, belong to the list's module, distinct names; key-less lists "
@@ -99,7 +111,8 @@ MANIFEST = {
             "bytes above 127 outside literals (parse_ncname model is ASCII), anydata values other than empty, anyxml, opaque "
             "nodes, LYD_DEFAULT other than on empty non-presence containers of parsed trees, path options other than 0 "
             "(UPDATE, OPAQ), the sibling position lyd_insert_node() gives a node created in a non-empty tree (only created "
-            "chain and attach point are modelled), lyd_find_xpath() (oracle level: Y, paths, paths-ops, pathq / pathq_rt). "
+            "chain and attach point are modelled), the re-sorting lyd_change_term() does and a proof that a fresh value preserves dwf "
+            "(hypothesis of C15_pathmodel_change_term_paths), lyd_find_xpath() (oracle level: Y, paths, paths-ops, pathq / pathq_rt). "
             "32-bit wrap of lyd_list_pos and the atoi() truncation of the index-0 test are modelled as coded.",
     "technique": "Coq proofs about executable models (whole path round trip; quote/unquote) + differential correspondence of the "
                  "extracted models with libyang + API oracles on every node",
